@@ -50,6 +50,9 @@ def _geoms(tier):
     # "fixed" VHDX: LeaveBlockAllocated set, blocks still placed / stated arbitrarily (the flag does not change how to read)
     q.append(dict(bs=MB, sec=512, W=3, cut=512, at=0, total=None, seqs=[7, 6], regions=["meta", "bat"], meta_mb=2, bat_mb=3,
                   leave=True))
+    # one request over more than 128 MiB of a single absent 256 MiB block
+    q.append(dict(bs=256 * MB, sec=512, W=3, cut=0, at=0, total=None, seqs=[7, 6], regions=["meta", "bat"], meta_mb=2, bat_mb=3,
+                  alpha="small", longrun=True))
     if tier == "quick":
         return q
     t = []
@@ -80,6 +83,8 @@ def _bufs(tier, g):
     base = [g["sec"], 8192] if tier == "quick" else [g["sec"], 3 * g["sec"], 8192]
     if tier != "quick" and g["W"] <= 3:
         base += [65536, 1 << 20]  # large buffers cost ~1 ms per request (every fill reads a whole buffer): 3-block windows only
+    if g.get("longrun"):
+        return [8192]
     if g.get("bigbuf"):
         return [2 * g["bs"]]  # a buffer larger than a block: the aligned over-read leaves the last block
     return sorted({b for b in base if b % g["sec"] == 0})
@@ -99,6 +104,9 @@ def _requests(g, size, buf):
     bs, sec, at, W = g["bs"], g["sec"], g["at"], g["W"]
     lo = max(0, (at - 1) * bs)
     hi = min(size, (at + W) * bs)
+    if g.get("longrun"):
+        return ([(0, 2 * bs + 4096), (bs - (200 << 20), 201 << 20), (4096, 130 << 20), (bs - 512, 1024), (bs + 512, bs + 1024)],
+                [(0, (2 * bs + 8192) // sec), (8, (140 << 20) // sec)])
     if g.get("bigbuf"):
         pts = [0, 1, bs - sec, bs, bs + 1, 2 * bs - 1, 2 * bs, 2 * bs + sec, size - bs, size - 1, size, size + 1]
         reqs = request_pairs(sorted(set(p for p in pts if p >= 0)))
@@ -125,6 +133,14 @@ def run_shard(shard, ctx):
     i, k = shard["slice"]
     W = g["W"]
     alpha = ALPHA_SMALL if g.get("alpha") == "small" else ALPHA
+    if g.get("longrun"):
+        # two absent 256 MiB blocks in every combination of {not present, zero}, then one present block
+        import itertools
+
+        for n, (a, b) in enumerate(itertools.product([B.NOT_PRESENT, B.ZERO_ST, B.UNMAPPED], repeat=2)):
+            if n % k == i:
+                run_case({"geom": g, "states": [a, b, DATA], "slots": [None, None, 0]}, ctx)
+        return
     for states, slots in sliced(window_models(alpha, W, W + 1), i, k):
         run_case({"geom": g, "states": states, "slots": slots}, ctx)
 
